@@ -91,4 +91,16 @@ META = {
   "note": "The oracle parses the stored JSON records; counters (log id, derivation index) are exempt.",
   "technique": "runtime monitoring: frame-condition monitor (full key/value dump diff) over generated foreign-API call sequences",
  },
+ "C13": {
+  "text": "Runtime monitoring of the real owner listener handler with a client-side session model: every request is classified by the harness as authenticated-under-the-current-key or not, and an 'effect or data implies authenticated' oracle inspects the wallet database, files, lifecycle state and the reply; replies to authenticated requests must decrypt under the same key.",
+  "design_ref": "DESIGN.md section 5 C13",
+  "note": "The handler is driven in-process (no socket); AES-GCM envelopes are built by the harness with ring, independently of the wallet's EncryptedRequest type.",
+  "technique": "runtime monitoring: session-model oracle ('effect implies authenticated') over generated request histories on the real handler",
+ },
+ "C14": {
+  "text": "Runtime monitoring of the real Owner API on a masked LMDB wallet: a token-kind sweep over every method with a raw-database frame condition, an invalid-mask requirement derived statically (key-using methods) and dynamically (methods observed to write with the right token), a masked-vs-unmasked differential run, and closed-wallet probes.",
+  "design_ref": "DESIGN.md section 5 C14",
+  "note": "Wrong tokens are sampled (absent, random, one bit off, another wallet's); create_mwixnet_req is not driven.",
+  "technique": "runtime monitoring: token sweep with database frame condition + masked/unmasked differential execution",
+ },
 }
